@@ -4,6 +4,7 @@ pub mod gen_fml;
 pub mod gen_inst;
 pub mod inst;
 pub mod oracle_frames;
+pub mod ovl;
 pub mod oracle_tlv;
 pub mod oracle_view;
 pub mod threads;
